@@ -85,6 +85,61 @@ def build_trace(tid, E, sessions):
     return {'tid': tid, 'E': Et, 'sess': out}
 
 
+def store_state(fn, PTS):
+    """abstract persistent store from the real .sav: (maxp rank, hasomen, ognum)"""
+    import configparser
+    N = len(PTS)
+    cp = configparser.ConfigParser()
+    try:
+        cp.read(fn)
+        mp = cp.getfloat('guessing_info', 'max_probability')
+    except Exception:
+        return N + 1, False, 0
+    rank = N + 1
+    for i, p in enumerate(PTS, 1):
+        if p['prob'] == mp:
+            rank = N + 1 - i
+            break
+    has = cp.has_option('guessing_info', 'omen_guess_number')
+    og = cp.getint('guessing_info', 'omen_guess_number') if has else 0
+    return rank, has, og
+
+
+def itrace(tid, E, PTS, r, script, init, fn, start_pos):
+    """gate log of one gated session -> TrSession_I trace.  start_pos: 0-based index in E where this session's
+    first guess is expected (used to name every printed guess as <<pt, k>>)"""
+    idx_in_pt = {}
+    names = []
+    cnt = {}
+    for (p, m, g, pr) in E:
+        cnt[p] = cnt.get(p, 0) + 1
+        names.append([p, cnt[p]])
+    ev = []
+    pos = start_pos
+    for who, gate, info in r['log']:
+        if gate == 'blocked_forever':
+            continue
+        a = 0
+        if gate == 'emit':
+            if pos < len(E) and E[pos][2] == info:
+                a = names[pos]
+                pos += 1
+            else:
+                a = [0, 0]
+        ev.append({'w': who, 'g': gate, 'a': a})
+    stream = []
+    pos = start_pos
+    for ln in r['lines']:
+        if pos < len(E) and E[pos][2] == ln:
+            stream.append(names[pos])
+            pos += 1
+        else:
+            stream.append([0, 0])
+    rank, has, og = store_state(fn, PTS)
+    return {'tid': tid, 'init': init, 'script': list(script), 'ev': ev,
+            'final': {'stream': stream, 'maxp': rank, 'hasomen': has}}
+
+
 def fresh_cfg(desc_flags=None):
     return session.new_save_config()
 
@@ -100,7 +155,7 @@ def resume_to_end(path, fn, flags=None):
     return {'lines': r['lines'], 'q': False, 'saved': sp}
 
 
-def gated_histories(path, E, scripts, rng, n_random, work):
+def gated_histories(path, E, scripts, rng, n_random, work, PTS=None, itraces=None):
     """single gated session under many schedules, each followed by a resume-to-end session"""
     res = []
     for script in scripts:
@@ -113,6 +168,9 @@ def gated_histories(path, E, scripts, rng, n_random, work):
             pcfg = ptq.load_pcfg(path, save_file=fn)
             run = gated.GatedRun(pcfg, session.new_save_config(), fn, script)
             r = run.run(chooser)
+            if itraces is not None and r['finished'] and not r['error']:
+                N = len(PTS)
+                itraces.append(itrace(0, E, PTS, r, script, {'sess': 1, 'maxp': N + 1, 'hasomen': False, 'ognum': 0, 'opt': 0, 'opos': 0}, fn, 0))
             qn = None
             cnt = 0
             for who, gate, info in r['log']:
@@ -320,16 +378,19 @@ def main(pid, tier, seed):
     otraces = []
     tid = 0
     n_rules = 3 if tier == 'quick' else 12
+    igroups = []
     rcopy = core.repo_copy('cli') if pid == 'C12' else None
     for k in range(n_rules):
         path = os.path.join(work, 'r%d' % k)
         desc = sessrules.make(rng, path, with_m=True, m_last=(k % 3 == 2))
-        E = sessrules.expected(path)
+        E, PTS = sessrules.expected(path, with_pts=True)
         if pid == 'C12':
             scripts = [['q', 'block'], ['', 'q', 'block'], ['h', 'block'], ['EOF'], ['', 'EOF'], ['x', 'q', 'block'], ['block']]
             if tier == 'quick':
                 scripts = scripts[:5] if k == 0 else rng.sample(scripts, 3)
-            hs = gated_histories(path, E, scripts, rng, 6 if tier == 'quick' else 40, work)
+            its = []
+            hs = gated_histories(path, E, scripts, rng, 6 if tier == 'quick' else 40, work, PTS, its)
+            igroups.append((PTS, its))
             hs += gated_resume_histories(path, E, rng, 3 if tier == 'quick' else 20, work)
             name = 'v%d' % k
             os.symlink(path, os.path.join(rcopy, 'Rules', name))
@@ -361,6 +422,25 @@ def main(pid, tier, seed):
             if v[0] != 'ACCEPT':
                 m = meta[t['tid']]
                 verdict.violation(dict(m, clause='C15_resumes_at_next_guess'), 'generator resume; %s' % core.short(m))
+    # ---- I-layer conformance (drift only): gate logs are behaviours of Session.tla ----
+    drift = []
+    n_itr = 0
+    ist = {'states': 0, 'transitions': 0}
+    for gi, (PTS, its) in enumerate(igroups):
+        if not its:
+            continue
+        for k, t in enumerate(its, 1):
+            t['tid'] = k
+        ptf = os.path.join(core.scratch('ptf'), 'pt.json')
+        with open(ptf, 'w') as f:
+            json.dump([{'kind': p['kind'], 'size': p['size']} for p in PTS], f)
+        iv, s1 = core.validate_traces('TrSession_I.tla', its, env={'PT_FILE': ptf}, chunk=150, timeout=600)
+        ist['states'] += s1['states']
+        ist['transitions'] += s1['transitions']
+        n_itr += len(its)
+        for t in its:
+            if iv[t['tid']][0] != 'ACCEPT':
+                drift.append({'ruleset': gi, 'script': t['script'], 'verdict': list(iv[t['tid']]), 'events': len(t['ev'])})
     rc, n_viol, n_known = verdict.finish()
     alltr = traces + otraces
     distinct = len({json.dumps({k: v for k, v in t.items() if k != 'tid'}, sort_keys=True) for t in alltr})
@@ -373,7 +453,8 @@ def main(pid, tier, seed):
            'rule': 'one trace = one history of real sessions on one ruleset: (C12) a gated two-thread session under one schedule and '
                    'keyboard script plus its resume, or one pcfg_guesser.py subprocess under one stdin condition; (C15) quit inside a Markov '
                    'level at position j followed by further quit/resume cycles, or one MarkovCracker save/load at cut j',
-           'rulesets': n_rules, 'trace_validation': {'TrSession': st, 'TrOmen': st2}, 'exhaustive': False,
+           'rulesets': n_rules, 'trace_validation': {'TrSession': st, 'TrOmen': st2, 'TrSession_I': ist}, 'exhaustive': False,
+           'impl_conformance': {'gate_logs': n_itr, 'result': 'drift' if drift else 'conforms', 'drift_examples': drift[:3], 'n_drift': len(drift)},
            'known_findings_reproduced': n_known, 'violation_histogram': verdict.histogram()}
     core.write_evidence(pid, tier, seed, 'model_checking', cov, time.time() - t0, violations=n_viol,
                         assumptions=['TLC', 'gates installed from outside at input/sleep/status/set_exit (keyboard) and pop/read_alive/read_exit/emit/save (main)',
